@@ -119,6 +119,10 @@ func coqItems(its []item) string {
 			parts = append(parts, "Lit "+coqBytes(it.lit))
 		case "Sep":
 			parts = append(parts, "Sep")
+		case "DecSigned", "Unknown":
+			// no such item in Base/Fmt.v: the SIGNED decimal of a uint64 (strconv.Itoa(int(x)), FormatInt(int64(x)), %d of
+			// int(x)) is not the decimal of the uint64, and an untranslatable function has no term at all
+			parts = append(parts, fmt.Sprintf("Raw %d", poisonArg))
 		default:
 			parts = append(parts, fmt.Sprintf("%s %d", it.kind, it.arg))
 		}
@@ -145,7 +149,7 @@ func humanItems(its []item) string {
 // values of the little evaluator
 
 type value struct {
-	kind   string // frag u64 height hash struct buf const
+	kind   string // frag u64 i64 (signed reinterpretation of a uint64 argument) height hash struct buf const
 	items  []item
 	arg    int              // u64 / hash: argument index
 	arg2   int              // height: revision height index (arg = revision number index)
@@ -153,6 +157,7 @@ type value struct {
 	slots  []item           // buf: one entry per byte; kind "" = unset; BE64 occupies 8 consecutive slots (first holds it)
 	n      int64            // const integer
 	hashed bool             // frag is a keccak pre-image
+	tname  string           // struct: its type name (for method calls)
 }
 
 type pkg struct {
@@ -288,11 +293,34 @@ type ctx struct {
 	where string
 }
 
+// unsupported: a construct outside the subset.  It aborts the translation of ONE function / constant (recovered by the
+// caller, which emits a poisoned term for that key family only), never the whole translator.
+type unsupported struct{ msg string }
+
 func (c *ctx) fail(n ast.Node, f string, a ...interface{}) {
 	pos := fset.Position(n.Pos())
 	var buf bytes.Buffer
 	fmt.Fprintf(&buf, f, a...)
-	die("%s:%d: in %s: unsupported construct: %s", pos.Filename, pos.Line, c.where, buf.String())
+	panic(unsupported{fmt.Sprintf("%s:%d: in %s: unsupported construct: %s", pos.Filename, pos.Line, c.where, buf.String())})
+}
+
+// poisonArg: an argument index no signature has.  A format containing [Raw poisonArg] fails every decidable side
+// condition (typed / covers / key_ok), every shape lemma and the comparison with the real builder.
+const poisonArg = 4095
+
+// try runs f; an unsupported construct is returned as its message
+func try(f func()) (msg string) {
+	defer func() {
+		if r := recover(); r != nil {
+			if u, ok := r.(unsupported); ok {
+				msg = u.msg
+				return
+			}
+			panic(r)
+		}
+	}()
+	f()
+	return ""
 }
 
 func lookupConst(repo string, p *pkg, name string) (value, bool) {
@@ -403,7 +431,7 @@ func (c *ctx) paramValue(t ast.Expr, next *int, desc *[]string, name string) (va
 	// struct of the same package
 	if id, ok := t.(*ast.Ident); ok {
 		if st, ok := c.p.types[id.Name]; ok {
-			v := value{kind: "struct", fields: map[string]value{}}
+			v := value{kind: "struct", fields: map[string]value{}, tname: id.Name}
 			for _, f := range st.Fields.List {
 				for _, fn := range f.Names {
 					// the struct's file resolves the field's type
@@ -436,11 +464,14 @@ func (c *ctx) asFrag(n ast.Node, v value) []item {
 			case "BE64":
 				out = append(out, s)
 				i += 8
-			case "Lit":
+			case "Lit", "Sep":
 				out = append(out, s)
 				i++
+			case "":
+				out = append(out, item{kind: "Lit", lit: []byte{0}}) // make / var zero-initialise
+				i++
 			default:
-				c.fail(n, "byte %d of a make([]byte, n) buffer is never written", i)
+				c.fail(n, "byte %d of a buffer holds the middle of a number", i)
 			}
 		}
 		return out
@@ -550,7 +581,19 @@ func (c *ctx) eval(e ast.Expr) value {
 		}
 		c.fail(e, "composite literal of type %s", typeString(e.Type))
 	case *ast.SliceExpr:
-		// buf[k:] is only meaningful as the destination of PutUint64 (handled there)
+		// x[:] / x[0:] / x[:len(x)] of a buffer or byte string is the value itself; any other slice is only meaningful as
+		// the destination of PutUint64 / copy (handled there)
+		x := c.eval(e.X)
+		lo, hi := int64(0), int64(-1)
+		if e.Low != nil {
+			lo = c.evalInt(e.Low)
+		}
+		if e.High != nil {
+			hi = c.evalInt(e.High)
+		}
+		if x.kind == "buf" && lo == 0 && (hi < 0 || hi == int64(len(x.slots))) && e.Max == nil {
+			return x
+		}
 		c.fail(e, "slice expression")
 	case *ast.CallExpr:
 		return c.call(e)
@@ -576,21 +619,59 @@ func (c *ctx) call(e *ast.CallExpr) value {
 			if len(e.Args) == 1 {
 				return c.eval(e.Args[0])
 			}
+		case "uint64":
+			if len(e.Args) == 1 {
+				v := c.eval(e.Args[0])
+				if v.kind == "u64" || v.kind == "const" {
+					return v
+				}
+				c.fail(e, "uint64(...) of a %s value", v.kind)
+			}
+		case "int", "int64":
+			// the SIGNED reinterpretation of a uint64 argument: its decimal is not the decimal of the uint64
+			if len(e.Args) == 1 {
+				v := c.eval(e.Args[0])
+				switch v.kind {
+				case "u64":
+					return value{kind: "i64", arg: v.arg}
+				case "const":
+					return v
+				}
+				c.fail(e, "%s(...) of a %s value", id.Name, v.kind)
+			}
 		case "append":
 			if len(e.Args) == 2 && e.Ellipsis != token.NoPos {
 				a, b := c.eval(e.Args[0]), c.eval(e.Args[1])
-				return value{kind: "frag", items: append(append([]item{}, c.asFrag(e, a)...), c.asFrag(e, b)...)}
+				return value{kind: "frag", items: append(append([]item{}, c.asFrag(e, a)...), c.asFrag(e, b)...), hashed: a.hashed}
 			}
-			c.fail(e, "append without a spread byte slice")
+			if len(e.Args) >= 2 && e.Ellipsis == token.NoPos {
+				// append(b, c1, c2, ...) with constant bytes
+				a := c.eval(e.Args[0])
+				var bs []byte
+				for _, x := range e.Args[1:] {
+					bs = append(bs, byte(c.evalInt(x)))
+				}
+				return value{kind: "frag", items: append(append([]item{}, c.asFrag(e, a)...), litItems(bs)...)}
+			}
+			c.fail(e, "append of a non-constant element")
 		case "make":
-			if len(e.Args) == 2 && typeString(e.Args[0]) == "[]byte" {
-				n := c.evalInt(e.Args[1])
+			if (len(e.Args) == 2 || len(e.Args) == 3) && typeString(e.Args[0]) == "[]byte" {
+				n := c.evalInt(e.Args[1]) // (the capacity, if any, does not matter)
+				if n < 0 || n > 1<<16 {
+					c.fail(e, "make with length %d", n)
+				}
+				if n == 0 {
+					return value{kind: "frag"}
+				}
 				return value{kind: "buf", slots: make([]item, n)}
 			}
 			c.fail(e, "make of something other than []byte with a constant length")
 		case "len":
 			if len(e.Args) == 1 {
 				v := c.eval(e.Args[0])
+				if v.kind == "buf" {
+					return value{kind: "const", n: int64(len(v.slots))}
+				}
 				if v.kind == "frag" {
 					n := 0
 					for _, it := range v.items {
@@ -641,6 +722,13 @@ func (c *ctx) call(e *ast.CallExpr) value {
 		case "frag":
 			if se.Sel.Name == "Bytes" && len(e.Args) == 0 { // hash.Bytes()
 				return x
+			}
+		case "struct":
+			// a method of a struct of this package, inlined with the receiver
+			if x.tname != "" {
+				if fd, ok := c.p.funcs[x.tname+"."+se.Sel.Name]; ok {
+					return c.inline(e, c.p, fd, &x, e.Args)
+				}
 			}
 		}
 		c.fail(e, "method %s on a %s value", se.Sel.Name, x.kind)
@@ -698,7 +786,47 @@ func (c *ctx) pkgCall(e *ast.CallExpr, dir, path, fn string) value {
 			}
 		}
 		c.fail(e, "LeftPadBytes of something other than big.NewInt(const).Bytes()")
-	case "github.com/ethereum/go-ethereum/crypto.Keccak256Hash":
+	case "strconv.FormatUint":
+		// FormatUint(x, 10) = the %d of a uint64
+		if len(e.Args) == 2 && c.evalInt(e.Args[1]) == 10 {
+			v := c.eval(e.Args[0])
+			switch v.kind {
+			case "u64":
+				return value{kind: "frag", items: []item{{kind: "Dec", arg: v.arg}}}
+			case "const":
+				if v.n >= 0 {
+					return value{kind: "frag", items: litItems([]byte(strconv.FormatInt(v.n, 10)))}
+				}
+			}
+			c.fail(e, "FormatUint of a %s value", v.kind)
+		}
+		c.fail(e, "FormatUint with a base other than 10")
+	case "strconv.Itoa", "strconv.FormatInt":
+		if fn == "FormatInt" && !(len(e.Args) == 2 && c.evalInt(e.Args[1]) == 10) {
+			c.fail(e, "FormatInt with a base other than 10")
+		}
+		if len(e.Args) >= 1 {
+			v := c.eval(e.Args[0])
+			switch v.kind {
+			case "i64":
+				return value{kind: "frag", items: []item{{kind: "DecSigned", arg: v.arg}}}
+			case "const":
+				return value{kind: "frag", items: litItems([]byte(strconv.FormatInt(v.n, 10)))}
+			}
+			c.fail(e, "%s of a %s value", fn, v.kind)
+		}
+	case "fmt.Sprint":
+		// Sprint of string operands is their concatenation (spaces are added only between non-string operands)
+		var its []item
+		for _, a := range e.Args {
+			v := c.eval(a)
+			if v.kind != "frag" || v.hashed {
+				c.fail(e, "Sprint of a %s value", v.kind)
+			}
+			its = append(its, v.items...)
+		}
+		return value{kind: "frag", items: its}
+	case "github.com/ethereum/go-ethereum/crypto.Keccak256Hash", "github.com/ethereum/go-ethereum/crypto.Keccak256":
 		var its []item
 		for _, a := range e.Args {
 			its = append(its, c.asFrag(e, c.eval(a))...)
@@ -751,6 +879,14 @@ func (c *ctx) sprintf(e *ast.CallExpr) value {
 		}
 		v := c.eval(args[ai])
 		ai++
+		if verb == 'v' {
+			switch v.kind {
+			case "u64", "i64", "const":
+				verb = 'd'
+			default:
+				verb = 's'
+			}
+		}
 		switch verb {
 		case 's':
 			switch v.kind {
@@ -770,6 +906,8 @@ func (c *ctx) sprintf(e *ast.CallExpr) value {
 			switch v.kind {
 			case "u64":
 				out = append(out, item{kind: "Dec", arg: v.arg})
+			case "i64":
+				out = append(out, item{kind: "DecSigned", arg: v.arg})
 			case "const":
 				out = append(out, litItems([]byte(strconv.FormatInt(v.n, 10)))...)
 			default:
@@ -860,46 +998,129 @@ func (c *ctx) exec(fd *ast.FuncDecl, st ast.Stmt) (value, bool) {
 		}
 		c.env[id.Name] = c.eval(st.Rhs[0])
 		return value{}, false
+	case *ast.DeclStmt:
+		gd, ok := st.Decl.(*ast.GenDecl)
+		if !ok || gd.Tok != token.VAR {
+			c.fail(st, "declaration")
+		}
+		for _, sp := range gd.Specs {
+			vs := sp.(*ast.ValueSpec)
+			for i, nm := range vs.Names {
+				switch {
+				case i < len(vs.Values):
+					c.env[nm.Name] = c.eval(vs.Values[i])
+				case vs.Type != nil:
+					// var x [n]byte / var x []byte / var x string: the zero value
+					if at, ok := vs.Type.(*ast.ArrayType); ok && typeString(at.Elt) == "byte" {
+						if at.Len == nil {
+							c.env[nm.Name] = value{kind: "frag"}
+						} else {
+							n := c.evalInt(at.Len)
+							if n < 0 || n > 1<<16 {
+								c.fail(st, "array of length %d", n)
+							}
+							c.env[nm.Name] = value{kind: "buf", slots: make([]item, n)}
+						}
+					} else if typeString(vs.Type) == "string" {
+						c.env[nm.Name] = value{kind: "frag"}
+					} else {
+						c.fail(st, "declaration of a %s variable", typeString(vs.Type))
+					}
+				default:
+					c.fail(st, "declaration without type or value")
+				}
+			}
+		}
+		return value{}, false
 	case *ast.ExprStmt:
-		// binary.BigEndian.PutUint64(buf[k:], u)
 		if call, ok := st.X.(*ast.CallExpr); ok {
-			if se, ok := call.Fun.(*ast.SelectorExpr); ok && se.Sel.Name == "PutUint64" && len(call.Args) == 2 {
-				if inner, ok := se.X.(*ast.SelectorExpr); ok && inner.Sel.Name == "BigEndian" {
-					off := int64(0)
-					var target *ast.Ident
-					switch d := call.Args[0].(type) {
-					case *ast.Ident:
-						target = d
-					case *ast.SliceExpr:
-						if id, ok := d.X.(*ast.Ident); ok && d.High == nil && d.Max == nil && d.Low != nil {
-							target = id
-							off = c.evalInt(d.Low)
+			// destination of a write: buf, buf[lo:], buf[lo:hi], buf[:hi]
+			dest := func(d ast.Expr) (*ast.Ident, int64, int64) {
+				switch d := d.(type) {
+				case *ast.Ident:
+					if b, ok := c.env[d.Name]; ok && b.kind == "buf" {
+						return d, 0, int64(len(b.slots))
+					}
+				case *ast.SliceExpr:
+					if id, ok := d.X.(*ast.Ident); ok && d.Max == nil {
+						if b, ok := c.env[id.Name]; ok && b.kind == "buf" {
+							lo, hi := int64(0), int64(len(b.slots))
+							if d.Low != nil {
+								lo = c.evalInt(d.Low)
+							}
+							if d.High != nil {
+								hi = c.evalInt(d.High)
+							}
+							if lo < 0 || hi > int64(len(b.slots)) || lo > hi {
+								c.fail(st, "slice bounds out of range (run-time panic)")
+							}
+							return id, lo, hi
 						}
 					}
-					if target == nil {
-						c.fail(st, "PutUint64 destination")
-					}
-					buf, ok := c.env[target.Name]
-					if !ok || buf.kind != "buf" {
-						c.fail(st, "PutUint64 into something that is not a make([]byte, n) buffer")
-					}
+				}
+				c.fail(st, "destination is not a byte buffer of constant length")
+				return nil, 0, 0
+			}
+			// binary.BigEndian.PutUint64(buf[k:], u)
+			if se, ok := call.Fun.(*ast.SelectorExpr); ok && se.Sel.Name == "PutUint64" && len(call.Args) == 2 {
+				if inner, ok := se.X.(*ast.SelectorExpr); ok && inner.Sel.Name == "BigEndian" {
+					target, off, hi := dest(call.Args[0])
+					buf := c.env[target.Name]
 					u := c.eval(call.Args[1])
-					if u.kind != "u64" {
-						c.fail(st, "PutUint64 of a non-parameter")
-					}
-					if off < 0 || int(off)+8 > len(buf.slots) {
+					if hi-off < 8 {
 						c.fail(st, "PutUint64 beyond the buffer (run-time panic)")
 					}
 					for k := 0; k < 8; k++ {
-						if buf.slots[int(off)+k].kind != "" {
+						if buf.slots[int(off)+k].kind == "used" || buf.slots[int(off)+k].kind == "BE64" {
 							c.fail(st, "overlapping PutUint64")
 						}
-						buf.slots[int(off)+k] = item{kind: "used"}
 					}
-					buf.slots[off] = item{kind: "BE64", arg: u.arg}
+					switch u.kind {
+					case "u64":
+						for k := 0; k < 8; k++ {
+							buf.slots[int(off)+k] = item{kind: "used"}
+						}
+						buf.slots[off] = item{kind: "BE64", arg: u.arg}
+					case "const":
+						for k := 0; k < 8; k++ {
+							buf.slots[int(off)+k] = item{kind: "Lit", lit: []byte{byte(uint64(u.n) >> (8 * uint(7-k)))}}
+						}
+					default:
+						c.fail(st, "PutUint64 of a %s value", u.kind)
+					}
 					c.env[target.Name] = buf
 					return value{}, false
 				}
+			}
+			// copy(buf[k:], constant text)
+			if id, ok := call.Fun.(*ast.Ident); ok && id.Name == "copy" && len(call.Args) == 2 {
+				target, off, hi := dest(call.Args[0])
+				buf := c.env[target.Name]
+				src := c.eval(call.Args[1])
+				var bs []byte
+				for _, it := range c.asFrag(st, src) {
+					switch it.kind {
+					case "Lit":
+						bs = append(bs, it.lit...)
+					case "Sep":
+						bs = append(bs, '/')
+					default:
+						c.fail(st, "copy of a non-constant value into a buffer")
+					}
+				}
+				for k := 0; k < len(bs) && off+int64(k) < hi; k++ {
+					sl := buf.slots[int(off)+k]
+					if sl.kind == "used" || sl.kind == "BE64" {
+						c.fail(st, "copy over a number")
+					}
+					if bs[k] == '/' {
+						buf.slots[int(off)+k] = item{kind: "Sep"}
+					} else {
+						buf.slots[int(off)+k] = item{kind: "Lit", lit: []byte{bs[k]}}
+					}
+				}
+				c.env[target.Name] = buf
+				return value{}, false
 			}
 		}
 		c.fail(st, "expression statement")
@@ -976,6 +1197,30 @@ type outFmt struct {
 	items  []item
 	hashed bool
 	src    string
+	note   string // why the term is poisoned (an unsupported construct, a signed decimal of a uint64)
+}
+
+// mentionsKeccak: the body of fd (or of a same-package function it calls, two levels deep) calls crypto.Keccak256*
+func mentionsKeccak(p *pkg, fd *ast.FuncDecl, depth int) bool {
+	found := false
+	ast.Inspect(fd.Body, func(n ast.Node) bool {
+		call, ok := n.(*ast.CallExpr)
+		if !ok {
+			return true
+		}
+		switch f := call.Fun.(type) {
+		case *ast.SelectorExpr:
+			if strings.HasPrefix(f.Sel.Name, "Keccak256") {
+				found = true
+			}
+		case *ast.Ident:
+			if g, ok := p.funcs[f.Name]; ok && depth > 0 && g != fd && mentionsKeccak(p, g, depth-1) {
+				found = true
+			}
+		}
+		return !found
+	})
+	return found
 }
 
 func translateFunc(repo string, p *pkg, key string, fd *ast.FuncDecl) (*outFmt, bool) {
@@ -990,6 +1235,16 @@ func translateFunc(repo string, p *pkg, key string, fd *ast.FuncDecl) (*outFmt, 
 	c := &ctx{repo: repo, p: p, file: fileOf(p, fd.Pos()), env: map[string]value{}, where: p.tag + "." + key}
 	next := 0
 	var desc []string
+	name := p.tag + "_" + strings.ReplaceAll(key, ".", "_")
+	src := fmt.Sprintf("%s: %s", p.dir, key)
+	poisoned := func(why string) (*outFmt, bool) {
+		fmt.Fprintf(os.Stderr, "keys: %s: emitted as a poisoned term: %s\n", name, why)
+		n := name
+		if mentionsKeccak(p, fd, 2) {
+			n += "_preimage"
+		}
+		return &outFmt{name: n, arity: next, desc: desc, items: []item{{kind: "Unknown"}}, src: src, note: why}, true
+	}
 	if fd.Recv != nil {
 		r := fd.Recv.List[0]
 		if len(r.Names) != 1 {
@@ -1009,26 +1264,38 @@ func translateFunc(repo string, p *pkg, key string, fd *ast.FuncDecl) (*outFmt, 
 		for _, nm := range f.Names {
 			v, ok := c.paramValue(f.Type, &next, &desc, nm.Name)
 			if !ok {
-				die("%s: parameter %s of %s.%s has type %s, which is outside the translator's subset (add it to the subset or to skipParamTypes)",
-					fset.Position(fd.Pos()), nm.Name, p.tag, key, ts)
+				return poisoned(fmt.Sprintf("parameter %s has type %s, which is outside the translator's subset", nm.Name, ts))
 			}
 			c.env[nm.Name] = v
 		}
 	}
-	v := c.body(fd)
-	its := normalize(c.asFrag(fd, v))
-	name := p.tag + "_" + strings.ReplaceAll(key, ".", "_")
+	var v value
+	var its []item
+	if msg := try(func() { v = c.body(fd); its = normalize(c.asFrag(fd, v)) }); msg != "" {
+		return poisoned(msg)
+	}
 	if v.hashed {
 		name += "_preimage"
 	}
-	return &outFmt{name: name, arity: next, desc: desc, items: its, hashed: v.hashed, src: fmt.Sprintf("%s: %s", p.dir, key)}, true
+	note := ""
+	for _, it := range its {
+		if it.kind == "DecSigned" {
+			note = fmt.Sprintf("argument %d (a uint64) is written as a SIGNED decimal (strconv.Itoa(int(x)) / FormatInt(int64(x)) / %%d of int(x)): "+
+				"values >= 2^63 come out negative; there is no such format item", it.arg)
+			fmt.Fprintf(os.Stderr, "keys: %s: %s\n", name, note)
+		}
+	}
+	return &outFmt{name: name, arity: next, desc: desc, items: its, hashed: v.hashed, src: src, note: note}, true
 }
 
-// the right-hand side of `varName := ...` inside function fn (used for store prefixes built inline)
-func translateLocal(repo string, p *pkg, fn, varName, outName string) *outFmt {
+// the prefix expression handed to prefix.NewStore(..., <expr>) in function fn, evaluated in the environment built by the
+// statements of fn (local variables assigned before it); parameters of key types become arguments
+func translatePrefixStore(repo string, p *pkg, fn, outName, label string) *outFmt {
+	src := fmt.Sprintf("%s: %s (%s)", p.dir, fn, label)
 	fd, ok := p.funcs[fn]
 	if !ok {
-		die("%s: function %s not found", p.dir, fn)
+		fmt.Fprintf(os.Stderr, "keys: %s: function %s not found: poisoned term\n", outName, fn)
+		return &outFmt{name: outName, items: []item{{kind: "Unknown"}}, src: src, note: "function " + fn + " not found"}
 	}
 	c := &ctx{repo: repo, p: p, file: fileOf(p, fd.Pos()), env: map[string]value{}, where: p.tag + "." + fn}
 	next := 0
@@ -1038,36 +1305,11 @@ func translateLocal(repo string, p *pkg, fn, varName, outName string) *outFmt {
 			continue
 		}
 		for _, nm := range f.Names {
-			v, ok := c.paramValue(f.Type, &next, &desc, nm.Name)
-			if !ok {
-				die("%s.%s: parameter %s", p.tag, fn, nm.Name)
-			}
-			c.env[nm.Name] = v
-		}
-	}
-	var found ast.Expr
-	ast.Inspect(fd.Body, func(n ast.Node) bool {
-		if as, ok := n.(*ast.AssignStmt); ok && len(as.Lhs) == 1 && len(as.Rhs) == 1 {
-			if id, ok := as.Lhs[0].(*ast.Ident); ok && id.Name == varName {
-				found = as.Rhs[0]
+			if v, ok := c.paramValue(f.Type, &next, &desc, nm.Name); ok {
+				c.env[nm.Name] = v
 			}
 		}
-		return true
-	})
-	if found == nil {
-		die("%s.%s: no assignment to %s (the store prefix is built differently now)", p.tag, fn, varName)
 	}
-	v := c.eval(found)
-	return &outFmt{name: outName, arity: next, desc: desc, items: normalize(c.asFrag(found, v)), src: fmt.Sprintf("%s: %s (local %s)", p.dir, fn, varName)}
-}
-
-// the prefix expression handed to prefix.NewStore(..., <expr>) in function fn
-func translatePrefixStore(repo string, p *pkg, fn, outName string) *outFmt {
-	fd, ok := p.funcs[fn]
-	if !ok {
-		die("%s: function %s not found", p.dir, fn)
-	}
-	c := &ctx{repo: repo, p: p, file: fileOf(p, fd.Pos()), env: map[string]value{}, where: p.tag + "." + fn}
 	var found ast.Expr
 	ast.Inspect(fd.Body, func(n ast.Node) bool {
 		if call, ok := n.(*ast.CallExpr); ok {
@@ -1077,11 +1319,33 @@ func translatePrefixStore(repo string, p *pkg, fn, outName string) *outFmt {
 		}
 		return true
 	})
-	if found == nil {
-		die("%s.%s: no prefix.NewStore call", p.tag, fn)
+	var its []item
+	msg := "no prefix.NewStore call"
+	if found != nil {
+		msg = try(func() {
+			// local variables: every single-valued assignment / declaration of the body that evaluates (others are skipped)
+			ast.Inspect(fd.Body, func(n ast.Node) bool {
+				switch st := n.(type) {
+				case *ast.AssignStmt:
+					if len(st.Lhs) == 1 && len(st.Rhs) == 1 && st.Pos() < found.Pos() {
+						if id, ok := st.Lhs[0].(*ast.Ident); ok {
+							var v value
+							if try(func() { v = c.eval(st.Rhs[0]) }) == "" {
+								c.env[id.Name] = v
+							}
+						}
+					}
+				}
+				return true
+			})
+			its = normalize(c.asFrag(found, c.eval(found)))
+		})
 	}
-	v := c.eval(found)
-	return &outFmt{name: outName, arity: 0, items: normalize(c.asFrag(found, v)), src: fmt.Sprintf("%s: %s (prefix.NewStore)", p.dir, fn)}
+	if msg != "" {
+		fmt.Fprintf(os.Stderr, "keys: %s: emitted as a poisoned term: %s\n", outName, msg)
+		return &outFmt{name: outName, arity: next, desc: desc, items: []item{{kind: "Unknown"}}, src: src, note: msg}
+	}
+	return &outFmt{name: outName, arity: next, desc: desc, items: its, src: src}
 }
 
 func main() {
@@ -1176,8 +1440,8 @@ func main() {
 	}
 	// store prefixes built inline in the client keeper
 	ck := loadPkg(*repo, "x/xibc/core/client/keeper")
-	fmts = append(fmts, translateLocal(*repo, ck, "Keeper.ClientStore", "clientPrefix", "clientkeeper_ClientStore_prefix"))
-	fmts = append(fmts, translatePrefixStore(*repo, ck, "Keeper.RelayerStore", "clientkeeper_RelayerStore_prefix"))
+	fmts = append(fmts, translatePrefixStore(*repo, ck, "Keeper.ClientStore", "clientkeeper_ClientStore_prefix", "local clientPrefix"))
+	fmts = append(fmts, translatePrefixStore(*repo, ck, "Keeper.RelayerStore", "clientkeeper_RelayerStore_prefix", "prefix.NewStore"))
 
 	// validate.go
 	hp := loadPkg(*repo, "x/xibc/core/host")
@@ -1233,6 +1497,9 @@ func main() {
 	for _, f := range fmts {
 		fmt.Fprintf(&b, "(* %s\n   args: %s\n   %s%s *)\n", f.src, strings.Join(f.desc, ", "), humanItems(f.items),
 			map[bool]string{true: "   -- the key is keccak256 of these bytes", false: ""}[f.hashed])
+		if f.note != "" {
+			fmt.Fprintf(&b, "(* POISONED (Raw %d stands for what has no format item): %s *)\n", poisonArg, strings.ReplaceAll(strings.ReplaceAll(strings.ReplaceAll(f.note, "(*", "( *"), "*)", "* )"), "\"", "'"))
+		}
 		fmt.Fprintf(&b, "Definition %s : fmt := %s.\nDefinition %s_arity : nat := %d.\n\n", f.name, coqItems(f.items), f.name, f.arity)
 	}
 	b.WriteString("Definition all_formats : list (fmt * nat) :=\n  [")
@@ -1267,7 +1534,11 @@ func main() {
 
 // constants whose initialiser is not string-like are skipped (numeric constants etc.)
 func tryConst(repo string, p *pkg, name string) (value, bool) {
-	v, ok := lookupConst(repo, p, name)
+	var v value
+	var ok bool
+	if try(func() { v, ok = lookupConst(repo, p, name) }) != "" {
+		return value{}, false
+	}
 	if !ok || v.kind != "frag" {
 		return value{}, false
 	}
